@@ -1202,10 +1202,10 @@ for _p, _l in _RT3.items():
 _PA = AN + 'pupil_aberration.py'
 _RT4 = {
     'C12': [
-        M('rt4-pa-sign', (_PA, 'error_x = (parax_ref - real_x) / d * 100',
-                          'error_x = (parax_ref + real_x) / d * 100')),
-        M('rt4-pa-scale', (_PA, 'error_y = (parax_ref - real_y) / d * 100',
-                           'error_y = (parax_ref - real_y) * d * 100')),
+        M('rt4-pa-sign', (_PA, 'error_x = (parax_ref * (1 - vx) - real_x) / d * 100',
+                          'error_x = (parax_ref * (1 - vx) + real_x) / d * 100')),
+        M('rt4-pa-scale', (_PA, 'error_y = (parax_ref * (1 - vy) - real_y) / d * 100',
+                           'error_y = (parax_ref * (1 - vy) - real_y) * d * 100')),
         M('rt4-pa-mask-dropped',
           (_PA, '                error_y[real_int_y == 0] = np.nan\n', '')),
         M('rt4-pa-mask-negated',
@@ -1230,8 +1230,8 @@ _RT4 = {
           (_PA, "data[f'{field}'][f'{wavelength}']['x'] = error_x",
            "data[f'{field}'][f'{wavelength}']['x'] = error_y")),
         T('rt4-T-pa-commuted',
-          (_PA, 'error_x = (parax_ref - real_x) / d * 100',
-           'error_x = 100 * (parax_ref - real_x) / d')),
+          (_PA, 'error_x = (parax_ref * (1 - vx) - real_x) / d * 100',
+           'error_x = 100 * (parax_ref * (1 - vx) - real_x) / d')),
     ],
 }
 for _p, _l in _RT4.items():
@@ -1548,4 +1548,17 @@ _RT16 = {
     ],
 }
 for _p, _l in _RT16.items():
+    VARIANTS.setdefault(_p, []).extend(_l)
+
+_RT17 = {
+    'C12': [
+        M('rt17-pa-unvignetted-reference',
+          (_PA, 'error_y = (parax_ref * (1 - vy) - real_y) / d * 100',
+           'error_y = (parax_ref - real_y) / d * 100')),
+        M('rt17-pa-wrong-factor',
+          (_PA, 'error_x = (parax_ref * (1 - vx) - real_x) / d * 100',
+           'error_x = (parax_ref * (1 - vy) - real_x) / d * 100')),
+    ],
+}
+for _p, _l in _RT17.items():
     VARIANTS.setdefault(_p, []).extend(_l)
